@@ -11,7 +11,7 @@ from vf import common
 from vf.bounded import ir_domain, ir_findings, roundtrip as R, rt_check
 from vf.props import deductive, rt_props
 
-KEYS = ["doctrans.ast_utils:param2ast", "doctrans.emit:function", "doctrans.ast_utils:_parse_node_for_arg", "doctrans.ast_utils:set_value", "doctrans.defaults_utils:needs_quoting", "doctrans.pure_utils:quote"]
+KEYS = ["doctrans.ast_utils:param2ast", "doctrans.ast_utils:param2argparse_param", "doctrans.emit:argparse_function", "doctrans.emit:function", "doctrans.ast_utils:_parse_node_for_arg", "doctrans.ast_utils:set_value", "doctrans.defaults_utils:needs_quoting", "doctrans.pure_utils:quote"]
 
 
 class _Stub:
